@@ -595,6 +595,27 @@ func main() {
 			}
 		}
 	}
+	// Release right after NewPool: the workers are still starting up when they are told to stop;
+	// all of them must be gone afterwards
+	for _, wk := range []int{1, 2, 8, 64} {
+		trial++
+		c := cfg{wk, 16, 1}
+		base := goroutineBaseline()
+		stuck := false
+		for k := 0; k < run.Pick(150, 1500); k++ {
+			p := gpool.NewPool(wk, 16)
+			if ret, _, _ := releaseWithWatchdog(p); !ret {
+				run.Violation("release-hangs", "fresh-pool", "Release right after NewPool did not return ("+c.String()+")", map[string]interface{}{"scenario": "release-right-after-creation", "config": c.String(), "round": k})
+				stuck = true
+				break
+			}
+		}
+		run.Eval(1)
+		if !stuck {
+			checkLeak(base, c, map[string]interface{}{"scenario": "release-right-after-creation", "config": c.String(), "trial": trial})
+			run.Distinct(fmt.Sprintf("fresh-release|%s", c))
+		}
+	}
 	// capacity far beyond what a burst usually reaches (the framework's own default is 10^7): a
 	// submitter still blocks only when that many jobs are waiting
 	for _, q := range []int{65536, 65537, 200000} {
